@@ -225,6 +225,9 @@ static void meta_case (vf_rng *r)
     } else {
         pixman_triangle_t tri; pixman_point_fixed_t p[3];
         for (int i = 0; i < 3; i++) { p[i].x = fxr (r, -6, w + 6); p[i].y = fxr (r, -4, h + 4); }
+        /* small triangles: all three vertices within a pixel or two of each other (the orientation test works on small differences there) */
+        if (vf_chance (r, 1, 4)) { double sp = vf_chance (r, 1, 2) ? 0.999 : 2.5; p[0].x = fxr (r, 0, w); p[0].y = fxr (r, 0, h);
+            for (int i = 1; i < 3; i++) { p[i].x = p[0].x + fxr (r, -sp, sp); p[i].y = p[0].y + fxr (r, -sp, sp); } vf_count ("small_triangles", 1); }
         if (vf_chance (r, 1, 5)) p[1].y = p[0].y;
         tri.p1 = p[0]; tri.p2 = p[1]; tri.p3 = p[2];
         /* sort by y */
